@@ -4,6 +4,7 @@ DESIGN.md section 4 are decided here."""
 from __future__ import annotations
 
 import ast
+import re
 
 from sa.core import Ob
 from sa.pm import AnalysisError, norm, body_nodes
@@ -240,8 +241,19 @@ def c15_5(ctx):
     member = [a for a in tat if " in self.hash_to_index_lookup" in a or " is None" in a]
     if falsy_index:
         ctx.bad("known-is-membership", ctx.where(kn), "BlockChain.is_hash_known answers by the truth of `%s`: the block at index 0 has a falsy index and is reported as unknown, so its re-delivery is loaded as a new root" % falsy_index[0][:70])
-    elif member:
+    elif member or any(re.search(r" in self\.\w+$", a) for a in tat):
+        member = member or [a for a in tat if re.search(r" in self\.\w+$", a)]
         ctx.ok("known-is-membership", sample={"test": member[0][:70]})
+        # a locked block stays known: locking removes nothing from the table `known` is read from (after lock_to_index the rebuilt
+        # finder no longer has the locked hashes, so that table is the only thing between a re-delivered locked header and the finder)
+        tabs = {m_.group(1) for a in member for m_ in [re.search(r" in self\.(\w+)$", a)] if m_}
+        lk = ctx.func(BC, "BlockChain.lock_to_index")
+        for tb in sorted(tabs):
+            gone = [n for n in ast.walk(lk.node) if (isinstance(n, ast.Delete) and any(isinstance(t_, ast.Subscript) and norm(t_.value) == "self." + tb for t_ in n.targets)) or
+                    (isinstance(n, ast.Call) and isinstance(n.func, ast.Attribute) and n.func.attr in ("pop", "popitem", "clear") and norm(n.func.value) == "self." + tb)]
+            ctx.check(not gone, "locked-blocks-stay-known:%s" % tb, ctx.where(lk, gone[0]) if gone else ctx.where(lk),
+                      "BlockChain.lock_to_index removes entries from self.%s, the table is_hash_known answers from: a locked block is then in neither that table nor the rebuilt finder, its re-delivered header is registered as new and the reported chain collapses to the locked prefix" % tb,
+                      sample={"known_table": tb, "removals_in_lock_to_index": len(gone)})
     else:
         ctx.undecided("known-is-membership", ctx.where(kn), "BlockChain.is_hash_known decides on %s; this rule reads membership / `is None` tests" % tat[:2])
     # the finder rebuilt by lock_to_index is seeded from ALL trees of the old one (orphan subtrees still waiting for a parent are
